@@ -352,6 +352,14 @@ func casesFor(names []string, seed uint64, round, per int) []tcase {
 			}
 		}
 	}
+	// 1c. HEVC SPS with the worst-case short-term RPS chain (NumDeltaPocs grows by one per set)
+	for _, name := range names {
+		if name == "hevc.ParseSPSNALUnit" && round == 0 {
+			for _, b := range hevcRPSChainUnits(r) {
+				cs = append(cs, tcase{name, b, 0})
+			}
+		}
+	}
 	// 2. mutants and soups, n rounds over all targets
 	if per < 8 {
 		per = 8
